@@ -51,3 +51,20 @@ pub(crate) fn seeded_conn_id(drawn: u64) -> u64 {
         None => drawn,
     })
 }
+
+thread_local! {
+    static UPLINK_TX: RefCell<Option<tokio::sync::mpsc::UnboundedSender<UplinkPacket>>> =
+        const { RefCell::new(None) };
+}
+
+/// Called by `run_sender_with_config` right after it created its uplink channel,
+/// so a simulator on this thread can inject uplink datagrams the way the reader
+/// tasks do.
+pub(crate) fn note_uplink_channel(tx: &tokio::sync::mpsc::UnboundedSender<UplinkPacket>) {
+    UPLINK_TX.with(|u| *u.borrow_mut() = Some(tx.clone()));
+}
+
+/// The uplink channel of the event loop running on this thread, if any.
+pub fn take_uplink_channel() -> Option<tokio::sync::mpsc::UnboundedSender<UplinkPacket>> {
+    UPLINK_TX.with(|u| u.borrow_mut().take())
+}
